@@ -15,7 +15,9 @@ THOROUGH_PATHS = PATHS + ["sub/deep/.h/q.go", ".x.go/y.go", "sub/deep/f.txt", "z
 PATS = ["*.go", "**/*.go", "sub/*", "*/*", "**", "**/*", "sub/**", "*", "s*/*.go", "*.{go,txt}", "**/deep/*", "sub/*.go",
         "*/*.go", "**/*.txt", "**/e.go", "sub/**/*.go", "*.txt", "sub/.*", ".*", "*/*/*.go", "**/b.go", ".hid/*", "**/.d.go", "{a,z}.*",
         # alternation in a directory segment (also before the first wildcard), with a hidden branch, and in the middle of a path
-        "{sub,zz}/*.go", "{sub,.hid}/*.go", "{sub,zz}/**/*.go", "sub/{deep,zz}/*", "{.m,a}.go*"]
+        "{sub,zz}/*.go", "{sub,.hid}/*.go", "{sub,zz}/**/*.go", "sub/{deep,zz}/*", "{.m,a}.go*",
+        # `?` and character classes, also in a directory segment before the first `*`, and matching a leading dot
+        "?.go*", "s?b/*.go", "[sz]*/*.go", "su[a-c]/*", "sub/[a-e].go*", "?m.go*", "**/?.go"]
 
 
 def chars(s):
@@ -36,6 +38,21 @@ def pat_struct(p):
                 i += 1
                 while i < len(seg) and seg[i] == "*":
                     i += 1
+            elif c == "?":
+                atoms.append({"k": "any"})
+                i += 1
+            elif c == "[":
+                j = seg.index("]", i)
+                body, cs, q = seg[i + 1:j], [], 0
+                while q < len(body):
+                    if q + 2 < len(body) and body[q + 1] == "-":
+                        cs += [chr(x) for x in range(ord(body[q]), ord(body[q + 2]) + 1)]
+                        q += 3
+                    else:
+                        cs.append(body[q])
+                        q += 1
+                atoms.append({"k": "class", "set": cs})
+                i = j + 1
             elif c == "{":
                 j = seg.index("}", i)
                 atoms.append({"k": "alt", "alts": [chars(a) for a in seg[i + 1:j].split(",")]})
